@@ -120,6 +120,31 @@ def case_transfer(case):
         e2 = _mk_field(E, grid, parts=[symx.symnp.zeros(
             fit.edge_shape(shape, d)) for d in range(3)])
         E.solver.prolongation(e2, ones, sc_dir)
+        # (vi) no state from earlier calls: a second fine grid B with the
+        # same coarse nodes (even nodes) but different odd nodes, prolongated
+        # from the SAME coarse field object right after grid A.
+        hB = []
+        for d in range(3):
+            hd = np.array(list(h[d]), dtype=object).view(symx.SymArray)
+            if d in COARSENED[sc_dir]:
+                for k in range(shape[d]//2):
+                    dk = Q.var(f"d{'xyz'[d]}[{k}]")
+                    hd[2*k] = h[d][2*k] + dk
+                    hd[2*k+1] = h[d][2*k+1] - dk
+                    c.assume(symx.B(z3.And(hd[2*k].t > 0,
+                                           hd[2*k+1].t > 0)))
+            hB.append(hd)
+        gridB = E.meshes.BaseMesh(hB, grid.origin)
+        modelB = _Duck()
+        modelB.grid = gridB
+        modelB.case = model.case
+        modelB.eta_x = modelB.eta_y = modelB.eta_z = modelB.zeta = \
+            model.zeta
+        resB = _mk_field(E, gridB, name='rB')
+        _, csB, _ = E.solver.restriction(modelB, resB, resB, sc_dir)
+        e0B = _mk_field(E, gridB, parts=[symx.symnp.zeros(
+            fit.edge_shape(shape, d)) for d in range(3)])
+        E.solver.prolongation(e0B, cf, sc_dir)
     finally:
         E.solver.RegularGridProlongator = RealRGP
     build_s = time.time()-t0
@@ -208,6 +233,18 @@ def case_transfer(case):
                   "and r", vd, group=grp, seconds=time.time()-t1, cex=cex,
                   key=f"restriction != prolongation^T sc_dir={sc_dir}",
                   note=f"build {build_s:.2f}s recips={len(c.recips)}"))
+    # (vi) second grid, same coarse field object
+    t1 = time.time()
+    lhsB = _inner(cf, csB, cshape)
+    rhsB = _inner(e0B, resB, shape, only_interior=False)
+    vd, m = c.valid(symx.qt(lhsB) == symx.qt(rhsB), label='adjoint B')
+    obs.append(ob("second call: <c, R_B r> == <P_B c, r> on a grid B with "
+                  "the same coarse nodes, same coarse field object (no state "
+                  "kept between calls)", vd, group=grp,
+                  seconds=time.time()-t1,
+                  key="prolongation/restriction depend on earlier calls "
+                      "(stale state)",
+                  cex=cexd('history', m) if vd == 'cex' else None))
     # (iii) boundary fine edges receive nothing; prolongation adds
     parts0 = [e0.fx, e0.fy, e0.fz]
     nzb = 0
@@ -293,8 +330,10 @@ def replay(cex):
     model.grid = grid
     model.case = {'iso': 'isotropic'}.get(cex['aniso'], cex['aniso'])
     model.eta_x = rng.normal(size=shape)
-    model.eta_y = rng.normal(size=shape)
-    model.eta_z = rng.normal(size=shape)
+    model.eta_y = rng.normal(size=shape) if model.case in (
+        'HTI', 'triaxial') else model.eta_x
+    model.eta_z = rng.normal(size=shape) if model.case in (
+        'VTI', 'triaxial') else model.eta_x
     model.zeta = rng.uniform(1, 2, shape)
     sfield = emg3d.Field(grid, dtype=float)
     res = emg3d.Field(grid, rng.normal(size=grid.n_edges))
@@ -304,6 +343,38 @@ def replay(cex):
     kind = cex['kind']
     msgs = []
     bad = False
+    if kind == 'history':
+        # grid A then grid B (same even nodes) through the real package
+        hB = [x.copy() for x in h]
+        for d in range(3):
+            if d in COARSENED[sc_dir]:
+                for k in range(shape[d]//2):
+                    dk = 0.3*min(h[d][2*k], h[d][2*k+1])
+                    hB[d][2*k] += dk
+                    hB[d][2*k+1] -= dk
+        gridB = emg3d.meshes.BaseMesh(hB, origin)
+        cf = emg3d.Field(cmodel.grid, rng.normal(size=cmodel.grid.n_edges))
+        for d, part in enumerate([cf.fx, cf.fy, cf.fz]):
+            for idx in fit.boundary_edges(cmodel.grid.shape_cells, d):
+                part[idx] = 0
+        eA = emg3d.Field(grid, dtype=float)
+        emg3d.solver.prolongation(eA, cf, sc_dir)
+        modelB = _Duck()
+        modelB.grid = gridB
+        modelB.case = model.case
+        modelB.eta_x = modelB.eta_y = modelB.eta_z = modelB.zeta = model.zeta
+        resB = emg3d.Field(gridB, rng.normal(size=gridB.n_edges))
+        _, csB, _ = emg3d.solver.restriction(modelB, resB, resB, sc_dir)
+        eB = emg3d.Field(gridB, dtype=float)
+        emg3d.solver.prolongation(eB, cf, sc_dir)
+        lhs = float(sum((a*b).sum() for a, b in zip(
+            [cf.fx, cf.fy, cf.fz], [csB.fx, csB.fy, csB.fz])))
+        rhs = float((eB.field*resB.field).sum())
+        sc = max(1.0, abs(lhs), abs(rhs))
+        return abs(lhs-rhs) > 1e-9*sc, (
+            f"real prolongation on grid A then grid B (same coarse nodes), "
+            f"sc_dir={sc_dir} shape={shape}: <c,R_B r>={lhs!r} vs "
+            f"<P_B c,r>={rhs!r}")
     # grid
     for d in range(3):
         fn = [grid.nodes_x, grid.nodes_y, grid.nodes_z][d]
@@ -325,11 +396,7 @@ def replay(cex):
                 sl0[d] = slice(0, None, 2)
                 sl1[d] = slice(1, None, 2)
                 want = want[tuple(sl0)]+want[tuple(sl1)]
-        if nm in ('eta_y',) and model.case in ('isotropic', 'VTI'):
-            want = None
-        if nm in ('eta_z',) and model.case in ('isotropic', 'HTI'):
-            want = None
-        if want is not None and (coarse.shape != want.shape or
+        if (coarse.shape != want.shape or
                                  not np.allclose(coarse, want, rtol=1e-12)):
             bad = True
             msgs.append(f"coarse {nm} != sum of children")
